@@ -126,6 +126,45 @@ def sequential(rng: random.Random, max_stmts: int = 12) -> str:
     return '\n'.join(lines) + '\n'
 
 
+# Statements whose result depends on how and where the script is compiled and executed, not only on what it says:
+# annotations (evaluated eagerly unless the compiler was given the `annotations` future flag), the module namespace,
+# names the runner might leak into it, exception state, closures and generators finalised at exit.
+INTROSPECT_PRELUDE = ["def note(tag, v=int):", "    print('note', tag)", "    return v"]
+INTROSPECT = [
+    ["def ann_f(x: note('arg'), y: note('arg2', str) = 'y') -> note('ret', bool):", "    return x",
+     "print('ann', sorted((k, getattr(v, '__name__', v)) for k, v in ann_f.__annotations__.items()))"],
+    ["ann_v: note('module-level') = 3", "print('mod-ann', sorted((k, getattr(v, '__name__', v)) for k, v in __annotations__.items()))"],
+    ["class AnnK:", "    fld: note('field', float) = 1.5", "    other: 'Undefined' = 2",
+     "print('cls-ann', sorted((k, getattr(v, '__name__', v)) for k, v in AnnK.__annotations__.items()))"],
+    ["import dataclasses", "@dataclasses.dataclass", "class DC:", "    n: int = 4", "    s: note('dc', str) = 's'",
+     "print('dc', [(f.name, getattr(f.type, '__name__', f.type)) for f in dataclasses.fields(DC)], DC())"],
+    ["print('ns', sorted(k for k in globals() if not k.startswith('__')))"],
+    ["print('env', locals() is globals(), __doc__, __builtins__ is not None, type(__name__).__name__)"],
+    ["import sys", "try:", "    raise KeyError('probe')", "except KeyError:", "    print('exc-info', sys.exc_info()[0].__name__, sys.exc_info()[2].tb_next is None)",
+     "print('exc-info-after', sys.exc_info()[0])"],
+    ["def mk():", "    c = [0]", "    def inc():", "        c[0] += 1", "        return c[0]", "    return inc", "inc = mk()", "print('closure', inc(), inc(), inc.__closure__ is not None)"],
+    ["def gfin():", "    try:", "        yield 1", "        yield 2", "    finally:", "        print('gen-finalised')", "gi = gfin()", "print('gen-first', next(gi))", "gi.close()"],
+    ["ann_bad: UndefinedAnnotationName = 1"],
+]
+
+
+def with_introspection(rng: random.Random, src: str) -> str:
+    """`src` (a top-level program) with the prelude and 1–3 introspective snippets spliced in between its top-level statements"""
+    lines = src.rstrip('\n').split('\n')
+    tops = [i for i, l in enumerate(lines) if l and not l[0].isspace() and not l.startswith(('else', 'except', 'finally', 'elif'))]
+    places = tops[1:] + [len(lines)]
+    ins: dict = {}
+    for sn in rng.sample(INTROSPECT, rng.randint(1, 3)):
+        ins.setdefault(rng.choice(places), []).extend(sn)
+    out: list = []
+    for i, l in enumerate(lines + ['']):
+        out += ins.get(i, [])
+        if i < len(lines):
+            out.append(l)
+    lines = out
+    return '\n'.join(INTROSPECT_PRELUDE + lines) + '\n'
+
+
 def concurrent(rng: random.Random, nthreads: int, ntasks: int, nested: bool = False, pool: bool = False) -> tuple[str, dict]:
     """A program with distinct worker functions per thread / task. Returns (source, {entity tag: function name}).
     With `pool`, the tasks also hand work to executor threads (`asyncio.to_thread`), which are reused."""
